@@ -110,13 +110,16 @@ func (w *World) EntryFacts(fn *ssa.Function) []entryFact {
 	if fn.Blocks == nil || !unexportedFunc(fn) || !w.P.InModule(fn) {
 		return nil
 	}
+	// examined while a conditional postcondition is still being computed, the call
+	// sites see that postcondition as empty: the result is then not cached
+	tainted := w.condBusy > 0
 	ci := w.callIdx()
 	sites := ci.sites[fn]
 	if len(sites) == 0 || ci.escaped[fn] {
 		return nil
 	}
 	// constants of the function
-	ks := map[int64]bool{0: true}
+	ks := map[int64]bool{0: true, 1: true} // 1: an access at index 0 needs one element
 	for _, b := range fn.Blocks {
 		for _, in := range b.Instrs {
 			for _, op := range in.Operands(nil) {
@@ -243,6 +246,10 @@ func (w *World) EntryFacts(fn *ssa.Function) []entryFact {
 	}
 	// keep only the strongest of each family (largest K)
 	w.entryC[fn] = out
+	if tainted {
+		delete(w.entryC, fn)
+		return out
+	}
 	if len(out) > 0 {
 		// while the call sites were being examined, summaries and loop invariants of
 		// fn (and of its callers) may have been computed WITHOUT these facts and
